@@ -260,6 +260,15 @@ def family(name, rng, sid):
         return gen_base(rng, sid, "none", refresh="none", allow_stop=rng.random() < 0.3)
     if name == "fault":
         return gen_base(rng, sid, "fault", fault=True)
+    if name == "delay":
+        sc = gen_base(rng, sid, "delay")
+        sc["cfg"]["delay"] = True
+        pos = rng.randint(0, len(sc["clients"][0]) - 1)
+        # the delay ends somewhere before the main client's Wait (or never)
+        w = next(i for i, o in enumerate(sc["clients"][0]) if o["op"] == "wait")
+        if rng.random() < 0.85:
+            sc["clients"][0].insert(rng.randint(0, w), {"op": "delayend"})
+        return sc
     if name == "tail":
         sc = gen_base(rng, sid, "tail", tail=True, clients=1, pop=rng.random() < 0.2)
         sc["sched"]["tickw"] = 1
@@ -277,4 +286,52 @@ def batch(seed, counts):
     for fam, n in counts:
         for i in range(n):
             out.append(family(fam, rng, "%s-%d-%d" % (fam, seed, i)))
+    return out
+
+
+def pty_programs(seed, n):
+    """Programs for the pseudo-terminal driver: bars below, at and above the terminal height, extender rows,
+    pop-completed mode, text in between; every step sequence ends with all bars finished."""
+    rng = random.Random(seed)
+    out = []
+    for i in range(n):
+        h = rng.randint(2, 5)
+        nb = rng.randint(1, h + 1)
+        pop = rng.random() < 0.5
+        bars = [{"ext": rng.choice([0, 0, 0, 1, 2]), "nopop": pop and rng.random() < 0.2, "rm": (not pop) and rng.random() < 0.3} for _ in range(nb)]
+        if pop:
+            # a popped bar must be visible when it is popped: keep every frame within the terminal
+            # (with more rows than the terminal holds the clipped rows are the popped ones: DESIGN.md C18)
+            while sum(1 + b["ext"] for b in bars) > h - 1 and bars:
+                if any(b["ext"] for b in bars):
+                    next(b for b in bars if b["ext"])["ext"] -= 1
+                else:
+                    bars.pop()
+            if not bars:
+                bars = [{"ext": 0, "nopop": False, "rm": False}]
+                h = max(h, 2)
+            nb = len(bars)
+        steps = []
+        order = list(range(nb))
+        live = []
+        todo = list(order)
+        rng.shuffle(todo)
+        fin = []
+        while todo or live:
+            r = rng.random()
+            if todo and (r < 0.4 or not live):
+                b = todo.pop()
+                steps.append({"op": "add", "b": b})
+                live.append(b)
+            elif r < 0.55:
+                steps.append({"op": "text", "b": 0})
+            elif r < 0.8 and live:
+                b = live.pop(rng.randrange(len(live)))
+                steps.append({"op": "done", "b": b})
+            steps.append({"op": "refresh", "b": 0})
+            if rng.random() < 0.5:
+                steps.append({"op": "refresh", "b": 0})
+        for _ in range(3):
+            steps.append({"op": "refresh", "b": 0})
+        out.append({"id": "pty-%d-%d" % (seed, i), "h": h, "w": 40, "pop": pop, "bars": bars, "steps": steps})
     return out
